@@ -27,6 +27,7 @@ ASSUMPTIONS = [
     "register names are matched case-insensitively; lower-case registers are not generated on purpose",
 ]
 HEALTH = {"accepted": 0.03, "class:invalid_by_construction": 4000}
+FUZZ = {"target": "fuzz/fuzz_asm.py", "seconds": {"quick": 0, "thorough": 180}}
 EXHAUSTIVE = {"quick": ["invalid-by-construction operand list x all 139 mnemonics",
                         "every single-character deletion and duplication of 120 base operands x 12 mnemonics"],
               "thorough": ["invalid-by-construction operand list x all 139 mnemonics",
